@@ -1062,9 +1062,11 @@ const (
 	fmS4         // outer exhausted
 	fmSN         // (Next) inner positioned on a consumed element
 	fmPre        // (constructor) before the outer iterator is known non-nil
+	fmSU         // outer advanced, result not tested yet on this segment
+	fmSF         // outer advanced (or initially positioned); a loop-carried flag says whether an element is current
 )
 
-var fmNames = []string{"unexpanded outer element", "generated/untested", "non-empty inner current", "must advance outer", "outer exhausted", "inner positioned", "start"}
+var fmNames = []string{"unexpanded outer element", "generated/untested", "non-empty inner current", "must advance outer", "outer exhausted", "inner positioned", "start", "outer advanced/untested", "outer advanced, flag pending"}
 
 func flatMapAutomaton(c *core.Ctx, fn *ssa.Function, an *ir.Analysis, isCtor bool, cur, outer, gen string, pairArgs bool) string {
 	isOuter := func(t *ir.Term) bool {
@@ -1094,6 +1096,8 @@ func flatMapAutomaton(c *core.Ctx, fn *ssa.Function, an *ir.Analysis, isCtor boo
 	}
 	start := map[*ssa.BasicBlock]int{}
 	known := map[*ssa.BasicBlock]bool{}
+	// `for has := true; has; has = outer.Next()`: the result of advancing is carried to the loop head in a flag
+	flagPhi := map[*ssa.BasicBlock]*ssa.Phi{}
 	init := fmSN
 	if isCtor {
 		init = fmPre
@@ -1111,8 +1115,22 @@ func flatMapAutomaton(c *core.Ctx, fn *ssa.Function, an *ir.Analysis, isCtor boo
 		for _, p := range an.Segs[h] {
 			s := start[h]
 			evs := iterEvents(p)
+			var pendR *ir.Term
 			for i := range p.Steps {
 				st := &p.Steps[i]
+				if s == fmSF && h != nil && flagPhi[h] != nil {
+					if st.Kind == ir.KBranch && ir.Same(st.Atom, an.Start[h].Reg(flagPhi[h])) {
+						if st.Pol {
+							s = fmS0
+						} else {
+							s = fmS4
+						}
+						continue
+					}
+					if st.Kind == ir.KCall || st.Kind == ir.KStore {
+						return "the result of advancing the outer iterator is not tested"
+					}
+				}
 				switch {
 				case st.Kind == ir.KBranch:
 					at := st.Atom
@@ -1151,7 +1169,7 @@ func flatMapAutomaton(c *core.Ctx, fn *ssa.Function, an *ir.Analysis, isCtor boo
 						case pol < 0:
 							s = fmS4
 						default:
-							return "the result of advancing the outer iterator is not tested"
+							s, pendR = fmSU, st.R
 						}
 					case isCurVal(st.A[0]):
 						if s != fmSN {
@@ -1218,6 +1236,43 @@ func flatMapAutomaton(c *core.Ctx, fn *ssa.Function, an *ir.Analysis, isCtor boo
 					return fmt.Sprintf("failure is reported in state '%s': later elements of the outer sequence would be lost", fmNames[s])
 				}
 			case p.To != nil:
+				// the flag form: the untested result (or, on the way in, a constant) becomes a phi of the loop head
+				if s == fmSU {
+					var fp *ssa.Phi
+					for phi, v := range p.PhiOut {
+						if ir.Same(v, pendR) {
+							fp = phi
+						}
+					}
+					if fp == nil || (flagPhi[p.To] != nil && flagPhi[p.To] != fp) {
+						return "the result of advancing the outer iterator is not tested"
+					}
+					if flagPhi[p.To] == nil {
+						flagPhi[p.To] = fp
+						if known[p.To] && start[p.To] != fmSF {
+							// an earlier arrival with a constant flag: compatible when the constant tells the same state
+							prev := start[p.To]
+							okPrev := false
+							for _, q := range an.Segs[nil] {
+								if q.To == p.To {
+									if v := q.PhiOut[fp]; v != nil && v.IsConst() && (v.Aux == "true" && prev == fmS0 || v.Aux == "false" && prev == fmS4) {
+										okPrev = true
+									}
+								}
+							}
+							if !okPrev {
+								return fmt.Sprintf("a loop head is reached in different protocol states ('%s' and '%s')", fmNames[prev], fmNames[fmSF])
+							}
+							start[p.To] = fmSF
+							work = append(work, p.To)
+						}
+					}
+					s = fmSF
+				} else if fp := flagPhi[p.To]; fp != nil && (s == fmS0 || s == fmS4) {
+					if v := p.PhiOut[fp]; v != nil && v.IsConst() && (v.Aux == "true" && s == fmS0 || v.Aux == "false" && s == fmS4) {
+						s = fmSF
+					}
+				}
 				if known[p.To] && start[p.To] != s {
 					return fmt.Sprintf("a loop head is reached in different protocol states ('%s' and '%s')", fmNames[start[p.To]], fmNames[s])
 				}
